@@ -146,9 +146,10 @@ class Token:
 
     @property
     def is_binop(self):
+        # Never a quoted string, whatever it spells.
         return (self.is_a(TokenTypes.COMPARE)
-                or self.content in '+-*/%^'
-                or self.content in ('and', 'or'))
+                or self.is_mark('+', '-', '*', '/', '%', '^')
+                or self.is_any(TokenTypes.AND, TokenTypes.OR))
 
     @property
     def line_number(self):
